@@ -2,6 +2,7 @@ import HmfVerif.Model.Lists
 import HmfVerif.Proofs.QuadLemmas
 import HmfVerif.Real.Tactics
 import HmfVerif.Gen.ExprFlow
+import HmfVerif.Spec.Wiring
 /-!
 # C08 — cumulative number and mass densities are consistent with dn/dm
 Statements about the list model of `hmf_integral_gtm` (tied to the code by evaluation at Float) over ℝ:
@@ -109,5 +110,11 @@ theorem rho_ltm_eq : evalR opq ρ Gen.Flow.MassFunction_rho_ltm = ρ "mean_densi
 theorem how_big_eq : evalR opq ρ Gen.Flow.MassFunction_how_big = (0.366362 / ρ "ngtm") ^ ((1:ℝ) / 3) := by
   simp only [Gen.Flow.MassFunction_how_big]; expr_unfold; push_cast; norm_num
 end
+
+/-- C08: `_gtm` hands the stand-alone integrator the positive part of the table, and the automatic high-mass extension starts one
+    grid step above the last tabulated mass and runs to 10^18 — so values at a mass do not depend on where the user's grid stops -/
+theorem gtm_wiring :
+    Gen.Flow.wiring.lookup "MassFunction._gtm/hmf_integral_gtm" = some Spec.Wiring.gtmIntegrator ∧
+    Gen.Flow.wiring.lookup "MassFunction._gtm/<derived object>.update" = some Spec.Wiring.gtmExtension := by decide
 
 end Hmf.C08
